@@ -213,7 +213,11 @@ func runC02R5(c *Ctx, r *Rep) {
 		if ifs, ok := n.(*ast.IfStmt); ok {
 			if be, ok := unparen(ifs.Cond).(*ast.BinaryExpr); ok && (be.Op == token.GTR || be.Op == token.GEQ) {
 				if len(ifs.Body.List) == 1 {
+					// the scan ends there: by leaving the loop, or by returning the line reached so far
 					if br, ok := ifs.Body.List[0].(*ast.BranchStmt); ok && br.Tok == token.BREAK {
+						op = be.Op
+					}
+					if _, ok := ifs.Body.List[0].(*ast.ReturnStmt); ok {
 						op = be.Op
 					}
 				}
@@ -302,7 +306,7 @@ func runC02R6(c *Ctx, r *Rep) {
 		ast.Inspect(as.Rhs[0], func(m ast.Node) bool {
 			switch x := m.(type) {
 			case *ast.IndexExpr:
-				if strings.HasSuffix(exprStr(x.X), "Lnotab") {
+				if strings.HasSuffix(strings.ToLower(exprStr(x.X)), "lnotab") { // the field, or a local holding it
 					a.idx = exprStr(x.Index)
 				}
 			case *ast.CallExpr:
